@@ -15,35 +15,38 @@ theorem joinOr_noNand {res : Option (Ast α)} {cur : Ast α} (hr : ∀ x, res = 
 
 /-- What a successful/failed call guarantees, given enough fuel. -/
 def SpecSub (S : Skel τ α) (f : Nat) : Prop :=
-  ∀ toks d, 2 * toks.length + 1 ≤ f →
-    sqSub S f toks d ≠ .oof ∧ ∀ a r, sqSub S f toks d = .ok (a, r) → r.length < toks.length ∧ a.NoNand
+  ∀ toks d n, 2 * toks.length + 1 ≤ f →
+    sqSub S f toks d n ≠ .oof ∧ ∀ a r, sqSub S f toks d n = .ok (a, r) → r.length < toks.length ∧ a.NoNand
 
 def SpecFilter (S : Skel τ α) (f : Nat) : Prop :=
-  ∀ toks d, 2 * toks.length + 2 ≤ f →
-    sqFilter S f toks d ≠ .oof ∧ ∀ a r, sqFilter S f toks d = .ok (a, r) → r.length < toks.length ∧ a.NoNand
+  ∀ toks d n, 2 * toks.length + 2 ≤ f →
+    sqFilter S f toks d n ≠ .oof ∧ ∀ a r, sqFilter S f toks d n = .ok (a, r) → r.length < toks.length ∧ a.NoNand
 
 def SpecLoop (S : Skel τ α) (f : Nat) : Prop :=
-  ∀ res cur toks d, 2 * toks.length + 1 ≤ f → (∀ x, res = some x → x.NoNand) → cur.NoNand →
-    sqLoop S f res cur toks d ≠ .oof ∧
-      ∀ a r, sqLoop S f res cur toks d = .ok (a, r) → r.length ≤ toks.length ∧ a.NoNand
+  ∀ res cur toks d n, 2 * toks.length + 1 ≤ f → (∀ x, res = some x → x.NoNand) → cur.NoNand →
+    sqLoop S f res cur toks d n ≠ .oof ∧
+      ∀ a r, sqLoop S f res cur toks d n = .ok (a, r) → r.length ≤ toks.length ∧ a.NoNand
 
 theorem sq_spec (S : Skel τ α) (hS : S.Good) : ∀ f, SpecSub S f ∧ SpecFilter S f ∧ SpecLoop S f := by
   intro f
   induction f with
   | zero =>
     refine ⟨?_, ?_, ?_⟩
-    · intro toks d h; omega
-    · intro toks d h; omega
-    · intro res cur toks d h; omega
+    · intro toks d n h; omega
+    · intro toks d n h; omega
+    · intro res cur toks d n h; omega
   | succ f ih =>
     obtain ⟨ihS, ihF, ihL⟩ := ih
     refine ⟨?_, ?_, ?_⟩
     · -- sub
-      intro toks d h
+      intro toks d n h
       cases toks with
       | nil => simp [sqSub]
       | cons t r =>
-        simp only [sqSub]
+        by_cases hdeep : S.tooDeep n = true
+        · simp [sqSub, hdeep]
+        replace hdeep : S.tooDeep n = false := by simpa using hdeep
+        simp only [sqSub, hdeep, Bool.false_eq_true, if_false]
         simp only [List.length_cons] at h
         split
         · refine ⟨by simp, ?_⟩
@@ -52,8 +55,8 @@ theorem sq_spec (S : Skel τ α) (hS : S.Good) : ∀ f, SpecSub S f ∧ SpecFilt
           obtain ⟨rfl, rfl⟩ := h'
           exact ⟨by simp, trivial⟩
         · split
-          · have hf := ihF r (d+1) (by omega)
-            cases hres : sqFilter S f r (d+1) with
+          · have hf := ihF r (d+1) (n+1) (by omega)
+            cases hres : sqFilter S f r (d+1) (n+1) with
             | ok p =>
               obtain ⟨a, r'⟩ := p
               have := hf.2 a r' hres
@@ -74,8 +77,8 @@ theorem sq_spec (S : Skel τ α) (hS : S.Good) : ∀ f, SpecSub S f ∧ SpecFilt
             | panic => simp
             | oof => exact absurd hres hf.1
           · split
-            · have hs := ihS r d (by omega)
-              cases hres : sqSub S f r d with
+            · have hs := ihS r d (n+1) (by omega)
+              cases hres : sqSub S f r d (n+1) with
               | ok p =>
                 obtain ⟨a, r'⟩ := p
                 have := hs.2 a r' hres
@@ -93,15 +96,15 @@ theorem sq_spec (S : Skel τ α) (hS : S.Good) : ∀ f, SpecSub S f ∧ SpecFilt
               intro a r' h'
               exact ⟨hS.atom_shorter _ _ _ h', hS.atom_noNand _ _ _ h'⟩
     · -- filter
-      intro toks d h
+      intro toks d n h
       simp only [sqFilter]
-      have hs := ihS toks d (by omega)
-      cases hres : sqSub S f toks d with
+      have hs := ihS toks d n (by omega)
+      cases hres : sqSub S f toks d n with
       | ok p =>
         obtain ⟨a, r'⟩ := p
         have h1 := hs.2 a r' hres
         simp only [PRes.bind_ok]
-        have hl := ihL none a r' d (by omega) (by simp) h1.2
+        have hl := ihL none a r' d n (by omega) (by simp) h1.2
         refine ⟨hl.1, ?_⟩
         intro a2 r2 h2
         have := hl.2 a2 r2 h2
@@ -110,7 +113,7 @@ theorem sq_spec (S : Skel τ α) (hS : S.Good) : ∀ f, SpecSub S f ∧ SpecFilt
       | panic => simp
       | oof => exact absurd hres hs.1
     · -- loop
-      intro res cur toks d h hres hcur
+      intro res cur toks d n h hres hcur
       cases toks with
       | nil =>
         simp only [sqLoop]
@@ -122,16 +125,16 @@ theorem sq_spec (S : Skel τ α) (hS : S.Good) : ∀ f, SpecSub S f ∧ SpecFilt
       | cons t r =>
         simp only [sqLoop]
         simp only [List.length_cons] at h
-        have hs := ihS r d (by omega)
+        have hs := ihS r d n (by omega)
         cases hk : S.kind t with
         | and =>
           simp only
-          cases hr : sqSub S f r d with
+          cases hr : sqSub S f r d n with
           | ok p =>
             obtain ⟨a, r'⟩ := p
             have h1 := hs.2 a r' hr
             simp only [PRes.bind_ok]
-            have hl := ihL res (.bin .and cur a) r' d (by omega) hres ⟨by decide, hcur, h1.2⟩
+            have hl := ihL res (.bin .and cur a) r' d n (by omega) hres ⟨by decide, hcur, h1.2⟩
             refine ⟨hl.1, ?_⟩
             intro a2 r2 h2
             have := hl.2 a2 r2 h2
@@ -142,12 +145,12 @@ theorem sq_spec (S : Skel τ α) (hS : S.Good) : ∀ f, SpecSub S f ∧ SpecFilt
           | oof => exact absurd hr hs.1
         | or =>
           simp only
-          cases hr : sqSub S f r d with
+          cases hr : sqSub S f r d n with
           | ok p =>
             obtain ⟨a, r'⟩ := p
             have h1 := hs.2 a r' hr
             simp only [PRes.bind_ok]
-            have hl := ihL (some (joinOr res cur)) a r' d (by omega)
+            have hl := ihL (some (joinOr res cur)) a r' d n (by omega)
               (by intro x hx; cases hx; exact joinOr_noNand hres hcur) h1.2
             refine ⟨hl.1, ?_⟩
             intro a2 r2 h2
@@ -190,22 +193,25 @@ theorem PRes.bind_mono {β γ : Type} {x x' : PRes β} {g g' : β → PRes γ}
   | oof => exact absurd rfl h
 
 theorem sq_mono (S : Skel τ α) : ∀ f,
-    (∀ toks d, sqSub S f toks d ≠ .oof → sqSub S (f+1) toks d = sqSub S f toks d) ∧
-    (∀ toks d, sqFilter S f toks d ≠ .oof → sqFilter S (f+1) toks d = sqFilter S f toks d) ∧
-    (∀ res cur toks d, sqLoop S f res cur toks d ≠ .oof → sqLoop S (f+1) res cur toks d = sqLoop S f res cur toks d) := by
+    (∀ toks d n, sqSub S f toks d n ≠ .oof → sqSub S (f+1) toks d n = sqSub S f toks d n) ∧
+    (∀ toks d n, sqFilter S f toks d n ≠ .oof → sqFilter S (f+1) toks d n = sqFilter S f toks d n) ∧
+    (∀ res cur toks d n, sqLoop S f res cur toks d n ≠ .oof → sqLoop S (f+1) res cur toks d n = sqLoop S f res cur toks d n) := by
   intro f
   induction f with
   | zero => simp [sqSub, sqFilter, sqLoop]
   | succ f ih =>
     obtain ⟨ihS, ihF, ihL⟩ := ih
     refine ⟨?_, ?_, ?_⟩
-    · intro toks d h
+    · intro toks d n h
       cases toks with
       | nil => simp [sqSub]
       | cons t r =>
+        by_cases hdeep : S.tooDeep n = true
+        · simp [sqSub, hdeep]
+        replace hdeep : S.tooDeep n = false := by simpa using hdeep
         rw [sqSub] at h ⊢
         conv => rhs; rw [sqSub]
-        try simp only at h ⊢
+        simp only [hdeep, Bool.false_eq_true, if_false] at h ⊢
         split
         · rfl
         · rename_i h1
@@ -213,19 +219,19 @@ theorem sq_mono (S : Skel τ α) : ∀ f,
           split
           · rename_i h2
             simp only [h2, if_true] at h
-            exact PRes.bind_mono (ihF r (d+1)) (fun _ _ => rfl) h
+            exact PRes.bind_mono (ihF r (d+1) (n+1)) (fun _ _ => rfl) h
           · rename_i h2
             simp only [h2, if_false] at h
             split
             · rename_i h3
               simp only [h3, if_true] at h
-              exact PRes.bind_mono (ihS r d) (fun _ _ => rfl) h
+              exact PRes.bind_mono (ihS r d (n+1)) (fun _ _ => rfl) h
             · rfl
-    · intro toks d h
+    · intro toks d n h
       rw [sqFilter] at h ⊢
       conv => rhs; rw [sqFilter]
-      exact PRes.bind_mono (ihS toks d) (fun b hb => ihL none b.1 b.2 d hb) h
-    · intro res cur toks d h
+      exact PRes.bind_mono (ihS toks d n) (fun b hb => ihL none b.1 b.2 d n hb) h
+    · intro res cur toks d n h
       cases toks with
       | nil => simp [sqLoop]
       | cons t r =>
@@ -233,25 +239,138 @@ theorem sq_mono (S : Skel τ α) : ∀ f,
         conv => rhs; rw [sqLoop]
         try simp only at h ⊢
         cases hk : S.kind t <;> simp only [hk] at h ⊢
-        · exact PRes.bind_mono (ihS r d) (fun b hb => ihL _ _ _ d hb) h
-        · exact PRes.bind_mono (ihS r d) (fun b hb => ihL _ _ _ d hb) h
+        · exact PRes.bind_mono (ihS r d n) (fun b hb => ihL _ _ _ d n hb) h
+        · exact PRes.bind_mono (ihS r d n) (fun b hb => ihL _ _ _ d n hb) h
 
 theorem sq_mono_le (S : Skel τ α) (f g : Nat) (hfg : f ≤ g) :
-    (∀ toks d, sqSub S f toks d ≠ .oof → sqSub S g toks d = sqSub S f toks d) ∧
-    (∀ toks d, sqFilter S f toks d ≠ .oof → sqFilter S g toks d = sqFilter S f toks d) ∧
-    (∀ res cur toks d, sqLoop S f res cur toks d ≠ .oof → sqLoop S g res cur toks d = sqLoop S f res cur toks d) := by
+    (∀ toks d n, sqSub S f toks d n ≠ .oof → sqSub S g toks d n = sqSub S f toks d n) ∧
+    (∀ toks d n, sqFilter S f toks d n ≠ .oof → sqFilter S g toks d n = sqFilter S f toks d n) ∧
+    (∀ res cur toks d n, sqLoop S f res cur toks d n ≠ .oof → sqLoop S g res cur toks d n = sqLoop S f res cur toks d n) := by
   induction g with
   | zero => have : f = 0 := by omega
-            subst this; exact ⟨fun _ _ _ => rfl, fun _ _ _ => rfl, fun _ _ _ _ _ => rfl⟩
+            subst this; exact ⟨fun _ _ _ _ => rfl, fun _ _ _ _ => rfl, fun _ _ _ _ _ _ => rfl⟩
   | succ g ih =>
     by_cases hfg' : f ≤ g
     · obtain ⟨a, b, c⟩ := ih hfg'
       obtain ⟨a', b', c'⟩ := sq_mono S g
       refine ⟨?_, ?_, ?_⟩
-      · intro toks d h; rw [a' toks d (by rw [a toks d h]; exact h), a toks d h]
-      · intro toks d h; rw [b' toks d (by rw [b toks d h]; exact h), b toks d h]
-      · intro res cur toks d h; rw [c' res cur toks d (by rw [c res cur toks d h]; exact h), c res cur toks d h]
+      · intro toks d n h; rw [a' toks d n (by rw [a toks d n h]; exact h), a toks d n h]
+      · intro toks d n h; rw [b' toks d n (by rw [b toks d n h]; exact h), b toks d n h]
+      · intro res cur toks d n h; rw [c' res cur toks d n (by rw [c res cur toks d n h]; exact h), c res cur toks d n h]
     · have : f = g + 1 := by omega
-      subst this; exact ⟨fun _ _ _ => rfl, fun _ _ _ => rfl, fun _ _ _ _ _ => rfl⟩
+      subst this; exact ⟨fun _ _ _ _ => rfl, fun _ _ _ _ => rfl, fun _ _ _ _ _ _ => rfl⟩
+
+
+/-! ## where the loop stops, and where a panic can come from -/
+
+/-- the tokens left by a successful `parseSeqQLFilter` at depth `d`: nothing, a `|`, or (inside parentheses) a `)` -/
+def StopAt (S : Skel τ α) (d : Nat) (rest : List τ) : Prop :=
+  rest = [] ∨ ∃ t r, rest = t :: r ∧ (S.kind t = .pipe ∨ (S.kind t = .rp ∧ d > 0))
+
+theorem sqLoop_rest (S : Skel τ α) : ∀ f res cur toks d n a r,
+    sqLoop S f res cur toks d n = .ok (a, r) → StopAt S d r := by
+  intro f
+  induction f with
+  | zero => intro res cur toks d n a r h; simp [sqLoop] at h
+  | succ f ih =>
+    intro res cur toks d n a r h
+    cases toks with
+    | nil =>
+      simp only [sqLoop, PRes.ok.injEq, Prod.mk.injEq] at h
+      exact Or.inl h.2.symm
+    | cons t tl =>
+      rw [sqLoop] at h
+      try simp only at h
+      cases hk : S.kind t <;> simp only [hk] at h
+      · simp at h
+      · split at h
+        · simp only [PRes.ok.injEq, Prod.mk.injEq] at h
+          rename_i hd
+          exact Or.inr ⟨t, tl, h.2.symm, Or.inr ⟨hk, hd⟩⟩
+        · simp at h
+      · cases hs : sqSub S f tl d n with
+        | ok p => rw [hs] at h; exact ih _ _ _ _ _ _ _ h
+        | err => rw [hs] at h; simp at h
+        | panic => rw [hs] at h; simp at h
+        | oof => rw [hs] at h; simp at h
+      · cases hs : sqSub S f tl d n with
+        | ok p => rw [hs] at h; exact ih _ _ _ _ _ _ _ h
+        | err => rw [hs] at h; simp at h
+        | panic => rw [hs] at h; simp at h
+        | oof => rw [hs] at h; simp at h
+      · simp at h
+      · simp only [PRes.ok.injEq, Prod.mk.injEq] at h
+        exact Or.inr ⟨t, tl, h.2.symm, Or.inl hk⟩
+      · simp at h
+      · simp at h
+
+theorem sqFilter_rest (S : Skel τ α) (f : Nat) (toks : List τ) (d n : Nat) (a : Ast α) (r : List τ)
+    (h : sqFilter S f toks d n = .ok (a, r)) : StopAt S d r := by
+  cases f with
+  | zero => simp [sqFilter] at h
+  | succ f =>
+    rw [sqFilter] at h
+    cases hs : sqSub S f toks d n with
+    | ok p => rw [hs] at h; exact sqLoop_rest S _ _ _ _ _ _ _ _ h
+    | err => rw [hs] at h; simp at h
+    | panic => rw [hs] at h; simp at h
+    | oof => rw [hs] at h; simp at h
+
+theorem PRes.bind_ne_panic {β γ : Type} {x : PRes β} {g : β → PRes γ}
+    (hx : x ≠ .panic) (hg : ∀ b, g b ≠ .panic) : x.bind g ≠ .panic := by
+  cases x with
+  | ok b => exact hg b
+  | err => simp [PRes.bind]
+  | panic => exact absurd rfl hx
+  | oof => simp [PRes.bind]
+
+/-- the skeleton itself never panics: a panic can only come out of the field-filter parser -/
+theorem sq_nopanic (S : Skel τ α) (hA : ∀ toks, S.atom toks ≠ .panic) : ∀ f,
+    (∀ toks d n, sqSub S f toks d n ≠ .panic) ∧ (∀ toks d n, sqFilter S f toks d n ≠ .panic) ∧
+    (∀ res cur toks d n, sqLoop S f res cur toks d n ≠ .panic) := by
+  intro f
+  induction f with
+  | zero => simp [sqSub, sqFilter, sqLoop]
+  | succ f ih =>
+    obtain ⟨ihS, ihF, ihL⟩ := ih
+    refine ⟨?_, ?_, ?_⟩
+    · intro toks d n
+      cases toks with
+      | nil => simp [sqSub]
+      | cons t r =>
+        by_cases hdeep : S.tooDeep n = true
+        · simp [sqSub, hdeep]
+        replace hdeep : S.tooDeep n = false := by simpa using hdeep
+        rw [sqSub]
+        simp only [hdeep, Bool.false_eq_true, if_false]
+        split
+        · simp
+        · split
+          · refine PRes.bind_ne_panic (ihF _ _ _) ?_
+            intro b
+            split
+            · split <;> simp
+            · simp
+          · split
+            · exact PRes.bind_ne_panic (ihS _ _ _) (by intro b; simp)
+            · exact hA _
+    · intro toks d n
+      rw [sqFilter]
+      exact PRes.bind_ne_panic (ihS _ _ _) (fun b => ihL _ _ _ _ _)
+    · intro res cur toks d n
+      cases toks with
+      | nil => simp [sqLoop]
+      | cons t r =>
+        rw [sqLoop]
+        try simp only
+        cases hk : S.kind t <;> simp only
+        · simp
+        · split <;> simp
+        · exact PRes.bind_ne_panic (ihS _ _ _) (fun b => ihL _ _ _ _ _)
+        · exact PRes.bind_ne_panic (ihS _ _ _) (fun b => ihL _ _ _ _ _)
+        · simp
+        · simp
+        · simp
+        · simp
 
 end SV.Parser
